@@ -32,6 +32,13 @@ def events(rich=False):
         ev.append(("move", o, "down"))
     ev.append(("disable", b"a"))
     ev.append(("remove", b"b"))
+    ev.append(("replace", "a", ("fresh", "d2"), b"a", None))
+    ev.append(("replace", "a", ("fresh", "d2"), b"c", None))
+    ev.append(("replace", b"b", ("fresh", "d1"), b"a", "desc"))
+    ev.append(("update", b"a", b"b", "d2"))
+    ev.append(("update", "b", b"b", "d1"))
+    ev.append(("move", b"a", "down"))
+    ev.append(("enable", b"a"))
     return ev
 
 
